@@ -8,6 +8,9 @@
 
 #![allow(clippy::all)]
 
+#[macro_use]
+extern crate uom;
+
 pub mod alloc_count;
 pub mod fw;
 pub mod gen;
